@@ -105,7 +105,11 @@ def run_partition(job):
         except core.SxAbort:
             raise
         except Exception as e:
-            cx.check(False, exc_label(e))
+            label = exc_label(e)
+            if label.endswith("@?"):
+                # raised by harness/env code itself, not by the code under test
+                raise core.HarnessBug(traceback.format_exc()[-1200:])
+            cx.check(False, label)
 
     def on_path(kind, out, cx):
         for label, asg in cx.violations:
